@@ -178,6 +178,9 @@ def step (st : St) (opS obsS : String) : St × String := Id.run do
         if inKernel st.kFrames f then st := fail st "C01" "frame-not-kernel-image" opS obsS
         if st.bootTaken.contains f then st := fail st "C01" "frame-not-early-allocated" opS obsS
         if st.held.contains f then st := fail st "C01" "frame-not-held-by-another" opS obsS
+        -- C03: "exactly the usable frames can be allocated": what comes out is a usable frame nobody holds
+        if !((usable st).contains f) ∨ st.held.contains f then
+          st := fail st "C03" "allocated-frame-is-usable-and-free" opS obsS
         st := { st with held := f :: st.held }
     | _ => st := fail st "C01" "bad-line" opS obsS
     return (st, optFrame r)
